@@ -3,6 +3,7 @@ package c01
 import (
 	"fmt"
 	"os"
+	"sort"
 	"testing"
 	"time"
 
@@ -215,6 +216,23 @@ func TestCheck(t *testing.T) {
 	}
 	r.Set("boundary_cases", k)
 	r.Set("boundary_lengths", gen4.BoundaryLens)
+	// (1b) large totals: many options of several hundred to 4096 octets each, option areas of 60 kB to 1 MB (the domain
+	//      bounds each value, not their sum)
+	nl := r.Pick(64, 3000)
+	for i := 0; i < nl; i++ {
+		if r.Mine(i) {
+			runCase(r, "large", i)
+		}
+	}
+	r.Set("large_total_cases", nl)
+	// (1c) decoded packets edited by their owner
+	ne := r.Pick(20000, 1000000)
+	for i := 0; i < ne; i++ {
+		if r.Mine(i) {
+			runCase(r, "edited", i)
+		}
+	}
+	r.Set("edited_cases", ne)
 	// (2) generated packets
 	n := r.Pick(100000, 6000000)
 	for i := 0; i < n; i++ {
@@ -234,6 +252,81 @@ func runCase(r *mon.Rec, stream string, idx int) {
 		v := gen4.Bytes(rng, l)
 		p.Options[uint8(code)] = v
 		e.Opts[byte(code)] = append([]byte{}, v...)
+		check(r, stream, idx, p, e)
+	case "edited":
+		// a packet value that was decoded from the wire and then changed by its owner, through the exported option map,
+		// the Options methods or the packet's methods (same number of options or not): it encodes as what it now holds
+		rng := r.Rand(stream, idx)
+		p0, e := gen4.Packet(rng, 6)
+		var p *dhcpv4.DHCPv4
+		pan, val, st := mon.Guard(func() {
+			var err error
+			if p, err = dhcpv4.FromBytes(p0.ToBytes()); err != nil {
+				panic(err)
+			}
+		})
+		if pan {
+			r.Violate("C01:panic:"+mon.LibFrame(st), fmt.Sprint(val), replay{Stream: stream, Idx: idx})
+			return
+		}
+		codes := []byte{}
+		for c := range e.Opts {
+			codes = append(codes, c)
+		}
+		sort.Slice(codes, func(i, j int) bool { return codes[i] < codes[j] })
+		for k := 1 + rng.IntN(3); k > 0; k-- {
+			v := gen4.Bytes(rng, []int{0, 1, 4, 7, 255, 256, 300}[rng.IntN(7)])
+			fresh := byte(1 + rng.UintN(254))
+			kind := rng.IntN(6)
+			if len(codes) == 0 && kind < 4 {
+				kind = 4
+			}
+			switch kind {
+			case 0: // same code, another value, stored in the map
+				c := codes[rng.IntN(len(codes))]
+				p.Options[c] = v
+				e.Opts[c] = append([]byte{}, v...)
+			case 1: // ... through Options.Update
+				c := codes[rng.IntN(len(codes))]
+				p.Options.Update(dhcpv4.OptGeneric(dhcpv4.GenericOptionCode(c), v))
+				e.Opts[c] = append([]byte{}, v...)
+			case 2: // one option out, another in: the count stays
+				c := codes[rng.IntN(len(codes))]
+				if _, ok := e.Opts[fresh]; ok || fresh == c {
+					continue
+				}
+				p.Options.Del(dhcpv4.GenericOptionCode(c))
+				delete(e.Opts, c)
+				p.Options.Update(dhcpv4.OptGeneric(dhcpv4.GenericOptionCode(fresh), v))
+				e.Opts[fresh] = append([]byte{}, v...)
+				codes = append(codes[:0], fresh)
+				for cc := range e.Opts {
+					if cc != fresh {
+						codes = append(codes, cc)
+					}
+				}
+				sort.Slice(codes, func(i, j int) bool { return codes[i] < codes[j] })
+			case 3: // the value's own octets are changed in place
+				c := codes[rng.IntN(len(codes))]
+				if len(p.Options[c]) > 0 {
+					p.Options[c][0] ^= 0x5a
+					e.Opts[c][0] ^= 0x5a
+				}
+			case 4: // through the packet's method
+				p.UpdateOption(dhcpv4.OptGeneric(dhcpv4.GenericOptionCode(fresh), v))
+				e.Opts[fresh] = append([]byte{}, v...)
+			case 5: // a header field
+				p.HopCount ^= 0x11
+				e.Hops ^= 0x11
+				p.TransactionID[2] ^= 0xff
+				e.Xid[2] ^= 0xff
+			}
+		}
+		check(r, stream, idx, p, e)
+	case "large":
+		rng := r.Rand(stream, idx)
+		p, e := gen4.Packet(rng, 2)
+		gen4.LargeTotal(rng, p, e)
 		check(r, stream, idx, p, e)
 	default:
 		rng := r.Rand(stream, idx)
